@@ -7,6 +7,8 @@ import LyModel.Valid.LemmasValdiffQuiet
 import LyModel.Valid.FullSaneB
 import LyModel.Valid.LemmasPerm
 import LyModel.Valid.FullUniq
+import LyModel.Valid.XpValid
+import LyModel.Valid.XpSpec
 /-! driver ops of component `valid` (C02, C07): see harness/api_val.c and harness/api_norm.c for the protocol -/
 namespace LyModel.Valid.Drv
 open LyModel LyModel.Tree
@@ -39,6 +41,23 @@ def handle (op : String) (args : List String) : String :=
             let es := if o.multiError then r.errs else r.errs.take 1
             "ok invalid " ++ toString es.length ++ " " ++ errToks es
       | _, _ => "err BadTree"
+  | "valx", [dsl, xdsl, opts, dump] =>
+    -- `val` with the XPath-dependent statements of the extension DSL (`must`, leafref `require-instance`): `validateX`
+    withX dsl xdsl fun X =>
+      match opts.toNat?, forestOfHex X.base dump, (Hex.dec xdsl).bind parseXCons with
+      | some on, some f, some C =>
+        match buildL X.base f with
+        | some e => "ok build " ++ e.name
+        | none =>
+          let o := VOpts.ofNat on
+          let t := canon X.base (heightL f + 1) (freshL X.base f)
+          let r := validateX X C o t
+          if r.errs.isEmpty then "ok valid " ++ dumpTok r.tree
+          else
+            let es := if o.multiError then r.errs else r.errs.take 1
+            "ok invalid " ++ toString es.length ++ " " ++ errToks es
+      | _, _, none => "err BadSchema"
+      | _, _, _ => "err BadTree"
   | "hist", dsl :: xdsl :: opts :: steps =>
     withX dsl xdsl fun X =>
       match opts.toNat?, steps.mapM (parseStep X.base) with
@@ -83,6 +102,15 @@ def handle (op : String) (args : List String) : String :=
         let ks := violations X (VOpts.ofNat on) (canon X.base (heightL f + 1) (freshL X.base f))
         "ok " ++ toString ks.eraseDups.length ++ " " ++ " ".intercalate (ks.eraseDups.map (·.name))
       | _, _ => "err BadTree"
+  | "specx", [dsl, xdsl, opts, dump] =>
+    -- `spec` with the XPath-dependent statements (`must`, leafref `require-instance`): `violationsX` (model only)
+    withX dsl xdsl fun X =>
+      match opts.toNat?, forestOfHex X.base dump, (Hex.dec xdsl).bind parseXCons with
+      | some on, some f, some C =>
+        let ks := violationsX X C (VOpts.ofNat on) (canon X.base (heightL f + 1) (freshL X.base f))
+        "ok " ++ toString ks.eraseDups.length ++ " " ++ " ".intercalate (ks.eraseDups.map (·.name))
+      | _, _, none => "err BadSchema"
+      | _, _, _ => "err BadTree"
   | "opsvariant", [dsl, xdsl] =>
     -- the all-state variant of the schema as DSL (flat table), and whether its tree view agrees with that table row by row
     withX dsl xdsl fun X =>
